@@ -156,6 +156,12 @@ def worker(args):
     env.setup()
     mod = load_module(args.prop)
     watchdog, soft = budgets(mod, args.tier)
+    try:
+        # the parent's watchdog asks where we are before it kills us
+        import faulthandler, signal
+        faulthandler.register(signal.SIGUSR1, file=sys.stderr, all_threads=False)
+    except Exception:
+        pass
     ctx = Ctx(args.prop, args.tier, args.seed, args.shard, args.nshards, time.monotonic() + soft)
     t0 = time.time()
     try:
@@ -270,6 +276,18 @@ def main(argv=None):
                 rc = p.poll()
                 if rc is None:
                     if time.monotonic() - ts > watchdog:
+                        where = ''
+                        try:
+                            import signal
+                            os.kill(p.pid, signal.SIGUSR1)
+                            time.sleep(0.5)
+                            with open(os.path.join(tmpd, 'shard%d.log' % i), 'rb') as f:
+                                txt = f.read()[-6000:].decode('utf-8', 'replace')
+                            k = txt.rfind('most recent call first')
+                            if k >= 0:
+                                where = ' -- worker was at: ' + ' | '.join(l.strip() for l in txt[k:].splitlines()[1:7])
+                        except Exception:
+                            pass
                         try:
                             os.killpg(p.pid, 9)
                         except Exception:
@@ -277,7 +295,7 @@ def main(argv=None):
                         p.wait()
                         log.close()
                         del running[i]
-                        inconclusive.append('watchdog (%ds) fired on shard %d' % (watchdog, i))
+                        inconclusive.append('watchdog (%ds) fired on shard %d%s' % (watchdog, i, where))
                     continue
                 log.close()
                 del running[i]
